@@ -207,7 +207,7 @@ inline std::string udaStr(const Opm::UDAValue& u) {
 inline std::string normKey(const std::string& k) {
     static const std::vector<std::pair<std::regex, std::string>> rules{
         { std::regex("^t[0-9]+\\."), "" }, { std::regex("(^|\\.)w\\.[^.]+\\."), "$1w." }, { std::regex("(^|\\.)g\\.[^.]+\\."), "$1g." },
-        { std::regex("(^|\\.)gecon\\.[^.]+\\."), "$1gecon." }, { std::regex("(^|\\.)[cs][0-9]+\\."), "$1c." } };
+        { std::regex("(^|\\.)gecon\\.[^.]+\\."), "$1gecon." }, { std::regex("(^|\\.)[WGN][0-9]+\\."), "$1X." }, { std::regex("\\.[0-9]+$"), ".n" }, { std::regex("(^|\\.)[cs][0-9]+\\."), "$1c." } };
     std::string r = k;
     for (const auto& [re, to] : rules) r = std::regex_replace(r, re, to);
     return r;
@@ -1078,7 +1078,7 @@ inline void runDynamic(vh::Rng& r, vh::PropLog& plog, std::map<std::string, long
 
 inline void runObjects(vh::Rng& rng, vh::PropLog& plog, std::map<std::string, long>& stats, bool thorough, const std::string& outdir) {
     // (a) random dynamic states
-    runDynamic(rng, plog, stats, thorough ? 400 : 60);
+    runDynamic(rng, plog, stats, thorough ? 2000 : 60);
     // (b) shipped decks of the working tree
     const char* repoEnv = std::getenv("VERIF_REPO");
     const std::string repo = repoEnv ? repoEnv : "/repo";
@@ -1099,7 +1099,7 @@ inline void runObjects(vh::Rng& rng, vh::PropLog& plog, std::map<std::string, lo
         checkLoaded(fs::path(path).filename().string(), L, plog, stats);
     }
     // (c) generated decks
-    const int ngen = thorough ? 150 : 25;
+    const int ngen = thorough ? 600 : 25;
     for (int i = 0; i < ngen; ++i) {
         const std::string text = genDeck(rng, stats);
         Loaded L; std::string why;
